@@ -105,6 +105,8 @@ def pred_reads(db, C, lam):
                 continue
             if l[0] == "L" and l[1] != locks.outer_id(db, lam):
                 continue    # locals of helper functions are private
+            if l[0] == "L" and f.is_lambda and _captured_by_value(db, f, l):
+                continue    # the predicate's own copy, fixed when the closure was made: nobody can update it
             S.setdefault(l, (f, n))
     return S
 
@@ -190,8 +192,8 @@ def r_cv(db, rep):
                              "%s updates %s, which the wait predicate in %s reads, without holding the waiter's mutex %s on every call path "
                              "(held: %s): a waiter that has evaluated the predicate but not yet blocked misses the following notify" % (
                                  gfn.qn, loc_str(l), f.qn, loc_str(M), ", ".join(sorted(loc_str(h) for h in held)) or "none"), gfn.qn)
-                if gfn.id == f.id:
-                    continue    # the waiting thread itself, before it waits
+                if gfn.id == f.id or gfn.id in {l.id for l in sync_lambdas(db, f)}:
+                    continue    # the waiting thread itself, before it waits (also inside a helper closure it calls)
                 rep.ob()
                 ok, why = followed_by_notify(db, C, gfn, an, cvloc)
                 if not ok:
@@ -205,11 +207,27 @@ def r_cv(db, rep):
 def r_once(db, rep):
     C = ctx(db)
     run = db.fn("Worker::run")
-    pop = db.fn("WorkerQueue::pop")
+    # the removing operation of the queue: the WorkerQueue method that takes an element off q (pop / try_pop / ...)
+    qloc = ("F", "WorkerQueue", "q")
+    removers = [m for m in db.methods_of("WorkerQueue") if m.body and any(
+        x.get("ext") and callee_name(x) in ("pop_front", "pop_back", "erase") and x.get("obj") is not None and
+        C.canon(m, access_path(m, x["obj"])) == qloc for x in m.calls())]
+    if len(removers) != 1:
+        raise AnalysisBroken("WorkerQueue: expected exactly one method that removes a task from q, found %d" % len(removers))
+    pop = removers[0]
+    # check-and-pop in one: the removal inside the method is itself dominated by a non-empty test of q
+    self_checked = False
+    if pop.cfg is not None:
+        for x in pop.calls():
+            if x.get("ext") and callee_name(x) in ("pop_front", "pop_back", "erase"):
+                for c0, pol0 in pop.cfg.guards(x):
+                    sc0 = strip(c0) if c0 is not None else None
+                    if sc0 is not None and sc0["k"] == "CXXMemberCallExpr" and callee_name(sc0) == "empty" and pol0 is False:
+                        self_checked = True
+    out_param = next((i for i, p0 in enumerate(pop.params) if pop.types[p0["t"]].get("kind") == "ref"), None)
     rep.visit(run)
     cfg = run.cfg
     # (6) who removes from q
-    qloc = ("F", "WorkerQueue", "q")
     for f in db.funcs.values():
         if not in_scope(f):
             continue
@@ -220,6 +238,11 @@ def r_once(db, rep):
                     if f.id != pop.id:
                         rep.viol("%s#removes-from-queue" % f.qn, f.nloc(n), "%s removes tasks from the queue; only WorkerQueue::pop may" % f.qn, f.qn)
     pops = [(f, n) for f in db.funcs.values() if in_scope(f) for n in f.calls() if n.get("f") == pop.id]
+    in_pred = [(f, n) for f, n in pops if f.is_lambda and locks.outer_id(db, f) == run.id]
+    if in_pred:
+        rep.notes.append("Worker::run takes the task inside a closure (%s): which paths invoke it is not followed through the closure "
+                         "(undecided)" % ", ".join(f.nloc(n) for f, n in in_pred))
+    pops = [(f, n) for f, n in pops if (f, n) not in in_pred]
     for f, n in pops:
         rep.ob()
         if f.id != run.id:
@@ -245,7 +268,9 @@ def r_once(db, rep):
             if (pol is False and not neg) or (pol is True and neg):
                 if sc["k"] in ("CXXMemberCallExpr", "UnaryOperator"):
                     chk = c
-        if chk is None:
+        if chk is None and self_checked:
+            pass        # the queue's own check-and-pop
+        elif chk is None:
             rep.viol("Worker::run#pop-unchecked", run.nloc(n), "Worker::run pops without a dominating `!queue.empty()` test: pop on an empty deque", run.qn)
         else:
             # the mutex is not released between the test and the pop
@@ -274,6 +299,16 @@ def r_once(db, rep):
                 tp = access_path(run, tgtn) if tgtn is not None else None
                 if tp and tp[0] == "local" and len(tp) == 2:
                     decl = {"d": tp[1]}
+        failed_side = []
+        if decl is None and out_param is not None and out_param < len(n.get("args", [])):
+            # bool try_pop(task&): the variable handed in receives the task; the paths on which the call returned false hold none
+            tp = access_path(run, n["args"][out_param])
+            if tp and tp[0] == "local" and len(tp) == 2:
+                decl = {"d": tp[1]}
+                for y in run.nodes():
+                    py = cfg.position(y)
+                    if py is not None and any(strip(c1) is n and pol1 is False for c1, pol1 in cfg.guards(y) if c1 is not None):
+                        failed_side.append(py)
         rep.ob()
         invs = []
         if decl is not None:
@@ -286,7 +321,7 @@ def r_once(db, rep):
             rep.viol("Worker::run#task-not-invoked", run.nloc(n), "the task popped in Worker::run is never invoked", run.qn)
             continue
         ipos = [cfg.position(x) for x in invs]
-        if cfg.path_exists(pos, [cfg.exit, pos], avoid=ipos):
+        if cfg.path_exists(pos, [cfg.exit, pos], avoid=ipos + failed_side):
             rep.viol("Worker::run#task-skipped", run.nloc(n), "some path from the pop to the next iteration / exit of Worker::run does not invoke the task", run.qn)
         rep.ob()
         for x, xp in zip(invs, ipos):
@@ -343,6 +378,17 @@ def _roles(db):
                         tasks.append(t)
     tclo = set(db.closure(tasks))
     return run, tasks, wclo | tclo
+
+
+def _captured_by_value(db, lam, l):
+    outer = db.funcs.get(l[1])
+    if outer is None:
+        return False
+    ln = next((x for x in outer.nodes() if x["k"] == "LambdaExpr" and x.get("lambda") == lam.id), None)
+    if ln is None:
+        return False
+    cap = next((cp for cp in ln.get("captures", []) if cp.get("d") == l[2]), None)
+    return cap is not None and not cap.get("byref")
 
 
 def _fresh_stable_slot(db, lam, l):
@@ -423,6 +469,9 @@ def r_lockset(db, rep):
             # (With std::vector the same code is a race - growth relocates the slots - and stays reported.)
             if f.is_lambda and l[0] == "L" and rw == "w" and _fresh_stable_slot(db, f, l):
                 continue
+            # reading a local captured by value reads the closure's own copy, made when the closure was created
+            if f.is_lambda and l[0] == "L" and rw == "r" and _captured_by_value(db, f, l):
+                continue
             acc[l].append((f, n, rw, frozenset(C.held(f, n)), frozenset(role)))
     for l in sorted(acc, key=str):
         lst = acc[l]
@@ -455,7 +504,11 @@ def r_slot(db, rep):
     C = ctx(db)
     bctor = [c for c in db.methods_of(BLOCKS) if c.is_ctor and any(x["k"] == "LambdaExpr" for x in c.nodes())]
     add = db.fn("WorkerPool::add_task")
-    for c in bctor:
+    hosts = []
+    for c0 in bctor:
+        hosts.append(c0)
+        hosts.extend(sync_lambdas(db, c0))
+    for c in hosts:
         rep.visit(c)
         cfg = c.cfg
         for call in [n for n in c.calls() if n.get("f") == add.id]:
@@ -497,16 +550,25 @@ def r_slot(db, rep):
                 if p and p[0] == "this":
                     rep.viol("%s#task-writes-%s" % (c.qn, p[1]), lam.nloc(w), "the queued task writes dictionary field %s (only its own slot of parts may be written)" % p[1], lam.qn)
             # mutating container calls on this->... inside the task
+            ordered = _ordered_append(db, c, lam, lam_node)
             for n in lam.calls():
                 if n.get("ext") and n["k"] == "CXXMemberCallExpr" and not n.get("fconst") and callee_name(n) not in MUTATORS_EXEMPT:
                     p = access_path(lam, n["obj"]) if n.get("obj") is not None else None
                     rep.ob()
+                    if p == ("this", "parts") and n in ordered:
+                        continue        # turn-ticket append: blocks land in submission order whatever the schedule
                     if p and p[0] == "this":
                         rep.viol("%s#task-mutates-%s" % (c.qn, p[1]), lam.nloc(n), "the queued task calls %s on dictionary field %s" % (callee_name(n), p[1]), lam.qn)
             # reservation: idx = parts.size(); parts.push_back(..) in one critical section dominating the add_task
             for d in idx_vars:
                 rep.ob()
                 assigns = [w for lv, w in written_lvalues(c) if access_path(c, lv) == ("local", d)]
+                # ... or its declaration:  const auto idx = parts.size();
+                for dn in c.nodes():
+                    if dn["k"] == "DeclStmt":
+                        for v in dn["decls"]:
+                            if v.get("d") == d and v.get("init") is not None:
+                                assigns.append({"k": "DeclInit", "id": dn["id"], "l": dn.get("l"), "rhs": v["init"], "_pos": dn})
                 pushes = [n for n in c.calls() if n.get("ext") and callee_name(n) in ("push_back", "emplace_back", "resize") and
                           n.get("obj") is not None and access_path(c, n["obj"]) == ("this", "parts")]
                 ok = False
@@ -516,21 +578,102 @@ def r_slot(db, rep):
                                                       access_path(c, x.get("obj")) == ("this", "parts") for x in walk(rhs))
                     if not is_size:
                         continue
+                    apn = a.get("_pos", a)
                     for pb in pushes:
-                        ga, gp = C.ls(c).guard_vars_held_at(a), C.ls(c).guard_vars_held_at(pb)
-                        if ga & gp and cfg.dominates(cfg.position(a), cfg.position(pb)) and cfg.dominates(cfg.position(pb), cfg.position(call)):
-                            # same guard instance continuously: no release between them
+                        ga, gp = C.ls(c).guard_vars_held_at(apn), C.ls(c).guard_vars_held_at(pb)
+                        # where the design locks the slot table at all, size() and push_back() sit in one critical section (same guard
+                        # instance, no release between them); whether a lock is needed is R-LOCKSET's question, not this rule's
+                        same_section = bool(ga & gp) or (not ga and not gp)
+                        between = [cfg.position(x) for x in pushes if x is not pb]
+                        apos = cfg.position(apn) or next((cfg.position(x) for x in walk(a["rhs"]) if cfg.position(x) is not None), None)
+                        if apos is None:
+                            continue
+                        if same_section and cfg.dominates(apos, cfg.position(pb)) and cfg.dominates(cfg.position(pb), cfg.position(call)) \
+                                and not any(b is not None and cfg.path_exists(apos, [b], avoid=[cfg.position(pb)]) and
+                                            cfg.path_exists(b, [cfg.position(pb)], avoid=[apos]) for b in between):
                             ok = True
                 if not ok:
                     rep.viol("%s#slot-reservation" % c.qn, c.nloc(call),
                              "the slot index of the queued task is not reserved by `idx = parts.size(); parts.push_back()` inside one critical section before add_task", c.qn)
             # no worker-role code resizes parts
-            for l2 in db.lambdas_of.get(c.id, []):
+            for l2 in [x for x in db.lambdas_of.get(locks.outer_id(db, c), []) if x.id not in {h.id for h in hosts}]:
                 for n in l2.calls():
                     if n.get("ext") and callee_name(n) in ("push_back", "emplace_back", "resize", "clear", "erase", "pop_back") and n.get("obj") is not None \
                             and access_path(l2, n["obj"]) == ("this", "parts"):
+                        if l2.id == lam.id and n in ordered and not idx_vars:
+                            continue    # ordered append and no task addresses a slot by index
                         rep.ob()
                         rep.viol("%s#task-resizes-parts" % c.qn, l2.nloc(n), "a task resizes parts: other tasks' slots move", l2.qn)
+
+
+def _ordered_append(db, c, lam, lam_node):
+    """push_back calls on this->parts in the task lam that are dominated by `cv.wait(lock, [..ticket..]{ return parts.size() == ticket; })`
+    with `ticket` captured by value and numbered 0, 1, 2, .. by the producer (`ticket = counter++`, counter starting at 0 and written
+    nowhere else): each task appends only when all earlier ones have."""
+    out = []
+    if lam.cfg is None:
+        return out
+    for w in lam.calls():
+        if callee_name(w) != "wait" or not (w.get("frec") or "").startswith("std::condition_variable") or len(w.get("args", [])) < 2:
+            continue
+        pred = lambda_of(db, lam, w["args"][1])
+        if pred is None:
+            continue
+        rets = [r for r in pred.live_nodes() if r["k"] == "ReturnStmt" and r.get("value") is not None]
+        if len(rets) != 1:
+            continue
+        e = strip(rets[0]["value"])
+        if e["k"] != "BinaryOperator" or e["op"] != "==":
+            continue
+        ticket = None
+        for a, b in ((e["lhs"], e["rhs"]), (e["rhs"], e["lhs"])):
+            sa = strip(a)
+            pb = access_path(pred, b)
+            if sa["k"] == "CXXMemberCallExpr" and callee_name(sa) == "size" and access_path(pred, sa.get("obj")) == ("this", "parts") and pb and pb[0] == "local":
+                ticket = pb[1]
+        if ticket is None:
+            continue
+        cap = next((cp for cp in lam_node["captures"] if cp.get("d") == ticket), None)
+        if cap is None or cap.get("byref"):
+            continue
+        # ticket = counter++ in the producer, counter = 0 initially and touched by nothing else
+        ini = single_def_init(c, ticket)
+        si = strip(ini) if ini is not None else None
+        if si is None or si["k"] != "UnaryOperator" or si["op"] != "++" or not si.get("postfix"):
+            continue
+        cp_ = access_path(c, si["sub"])
+        if not cp_ or cp_[0] != "local":
+            continue
+        cinit = None
+        for dn in c.nodes():
+            if dn["k"] == "DeclStmt":
+                for v in dn["decls"]:
+                    if v.get("d") == cp_[1]:
+                        cinit = v.get("init")
+        others = [x for lv, x in written_lvalues(c) if access_path(c, lv) == cp_ and x is not si]
+        for l2 in db.lambdas_of.get(c.id, []):
+            others += [x for lv, x in written_lvalues(l2) if access_path(l2, lv) == cp_]
+        if cinit is None or const_value(cinit) != 0 or others:
+            continue
+        wp = lam.cfg.position(w)
+        for n in lam.calls():
+            if n.get("ext") and callee_name(n) in ("push_back", "emplace_back") and n.get("obj") is not None and access_path(lam, n["obj"]) == ("this", "parts"):
+                np_ = lam.cfg.position(n)
+                if wp and np_ and lam.cfg.dominates(wp, np_):
+                    out.append(n)
+    return out
+
+
+def sync_lambdas(db, c):
+    """Local lambdas of c that c itself invokes (helper closures such as `auto submit = [&](..){..}; submit(n);`): their bodies run
+    on the constructor's thread, as part of it."""
+    out = []
+    for n in c.nodes():
+        if n["k"] == "CXXOperatorCallExpr" and n.get("opcall") == "()" and n.get("args"):
+            l = lambda_of(db, c, n["args"][0])
+            if l is not None and l not in out:
+                out.append(l)
+    return out
 
 
 SYNC_KINDS = {
@@ -571,6 +714,21 @@ def r_join(db, rep):
         # stop + join are what completion rests on: the workers leave their loop only with the queue drained (R-DRAIN), so after
         # stop_all_workers ; wait_workers every queued task has run.  A condition wait before the stop is the tree's belt-and-braces
         # form; when present it must come first, but its absence is not a defect.
+        # shutdown signalled by the tasks themselves (the task that finishes last calls stop_all_workers): whether that protocol
+        # always fires is a counting argument over run-time state, not decided here; the join obligations remain
+        run_, tasks_, _wf = roles(db)
+        task_stop = [t for t in tasks_ if locks.outer_id(db, t) == c.id and any(
+            callee_name(x) == "stop_all_workers" for fid in db.closure([t]) for x in db.funcs[fid].calls())]
+        if task_stop and j:
+            rep.notes.append("%s: stop_all_workers is called from a queued task (%s): completion protocol not decided; only the join "
+                             "obligations are checked" % (c.qn, task_stop[0].loc))
+            jp = cfg.position(j[0])
+            for a in adds:
+                rep.ob()
+                if cfg.path_exists(cfg.position(a), [cfg.exit], avoid=[jp]):
+                    rep.viol("%s#exit-skips-wait_workers" % c.qn, c.nloc(a),
+                             "a path from add_task to the end of %s skips wait_workers: the constructor can return while tasks still run" % c.qn, c.qn)
+            continue
         if not (s and j):
             rep.viol("%s#missing-sync" % c.qn, c.loc, "%s queues tasks but lacks %s" % (
                 c.qn, ", ".join(x for x, y in (("stop_all_workers", s), ("wait_workers", j)) if not y)), c.qn)
@@ -672,6 +830,8 @@ def r_workerpure(db, rep):
             for lv, w in written_lvalues(f):
                 for r in E.lvalue_regions(f, lv, lp):
                     rep.ob()
+                    if r[0] == "global" and db.globals.get(r[1], {}).get("tls"):
+                        continue            # thread_local: every worker has its own copy
                     if r[0] == "global" and not allowed_global(r):
                         rep.viol("%s#writes-global-%s" % (f.qn, db.globals.get(r[1], {}).get("qn", r[1])), f.nloc(w),
                                  "%s runs in worker threads (reached from a queued task: %s) and writes global/static %s" % (
@@ -681,6 +841,9 @@ def r_workerpure(db, rep):
                 if n["k"] == "DeclStmt":
                     for d in n["decls"]:
                         if d.get("static") and not f.types[d["t"]].get("const"):
+                            if any(g0.get("tls") and g0.get("staticlocal") and g0.get("infunc") == f.id and (g0.get("n") == d.get("n") or (g0.get("qn") or "").endswith(d.get("n") or "\0"))
+                                   for g0 in db.globals.values()):
+                                continue    # static thread_local
                             rep.ob()
                             rep.viol("%s#static-local-%s" % (f.qn, d["n"]), f.nloc(n),
                                      "%s runs in worker threads and owns the mutable static local %s" % (f.qn, d["n"]), f.qn)
@@ -691,7 +854,7 @@ def r_workerpure(db, rep):
                     u = n["u"]
                 elif n["k"] == "MemberExpr" and n.get("mk") == "staticmember":
                     u = n["u"]
-                if u is None or u in STD_STREAMS or n.get("const"):
+                if u is None or u in STD_STREAMS or n.get("const") or db.globals.get(u, {}).get("tls"):
                     continue
                 rep.ob()
                 ws = [(g, w) for g, w in gwriters.get(u, [])]
@@ -793,7 +956,19 @@ def r_paramflow(db, rep):
                 anc = list(c.ancestors(u))
                 ok = False
                 why = "an expression"
-                for a in anc:
+                # a capacity hint: the whole expression is the argument of container.reserve(): no observable effect on the result
+                def in_reserve(chain):
+                    return any(a["k"] == "CXXMemberCallExpr" and callee_name(a) == "reserve" and (a.get("frec") or "").startswith("std::") for a in chain)
+                if in_reserve(anc):
+                    ok = True
+                else:
+                    # ... possibly through a local that only feeds such a hint:  const auto min_block = cut_size + 1; v.reserve(n / min_block + 1);
+                    dst = next((a for a in anc if a["k"] == "DeclStmt"), None)
+                    if dst is not None and len(dst["decls"]) == 1 and "d" in dst["decls"][0]:
+                        lu = [x for x in c.nodes() if x["k"] == "DeclRefExpr" and x.get("dk") == "local" and x.get("d") == dst["decls"][0]["d"]]
+                        if lu and all(in_reserve(list(c.ancestors(x))) for x in lu):
+                            ok = True
+                for a in ([] if ok else anc):
                     if a["k"] in ("CXXConstructExpr", "CXXTemporaryObjectExpr"):
                         if p["n"] == "thread_count" and a.get("rec") == "WorkerPool":
                             ok = True
@@ -963,7 +1138,28 @@ def _calls_in(cond, rec, name):
     return [x for x in walk(cond) if x["k"] == "CXXMemberCallExpr" and callee_name(x) == name and x.get("frec") == rec]
 
 
-@rule("R-DRAIN", 2, "a worker leaves its loop only when it has observed both `stopped` and an empty queue: no queued task is "
+def _empty_implied(db, h, pol):
+    """Every way the WorkerQueue method h can return `pol` has seen its container empty (`return q.empty()` for true; a
+    check-and-pop's `if (q.empty()) return false;` for false)."""
+    if h is None or h.body is None or h.cfg is None:
+        return False
+    seen = False
+    for r in h.live_nodes():
+        if r["k"] != "ReturnStmt" or r.get("value") is None:
+            continue
+        cv = const_value(r["value"])
+        if cv is not None and bool(cv) != bool(pol):
+            continue
+        atoms = list(h.cfg.guards(r))
+        if cv is None:
+            atoms += implied_atoms(r["value"], pol)
+        if not any(c is not None and strip(c)["k"] == "CXXMemberCallExpr" and callee_name(strip(c)) == "empty" and p for c, p in atoms):
+            return False
+        seen = True
+    return seen
+
+
+@rule("R-DRAIN", 1, "a worker leaves its loop only when it has observed both `stopped` and an empty queue: no queued task is "
                     "dropped at shutdown and no worker retires while the pool is live")
 def r_drain(db, rep):
     run = db.fn("Worker::run")
@@ -974,8 +1170,21 @@ def r_drain(db, rep):
         raise AnalysisBroken("Worker::run: expected exactly one top-level worker loop, found %d" % len(outer))
     loop = outer[0]
     exits = []
-    if loop.get("cond") is not None:
+    if loop.get("cond") is not None and not const_value(loop["cond"]):
         exits.append(("the loop condition", loop, implied_atoms(loop["cond"], False)))
+    # locals that a wait predicate (a closure) writes: an exit decided on one of them knows what the predicate established,
+    # which is not followed here
+    pred_written = set()
+    for l0 in db.lambdas_of.get(run.id, []):
+        for lv0, w0 in written_lvalues(l0):
+            p0 = access_path(l0, lv0)
+            if p0 and p0[0] == "local":
+                pred_written.add(p0[1])
+        for c0 in l0.calls():
+            for a0 in c0.get("args", []):
+                p0 = access_path(l0, a0)
+                if p0 and p0[0] == "local" and len(p0) == 2:
+                    pred_written.add(p0[1])
     for n in walk(loop["body"]):
         if n["k"] in ("BreakStmt", "ReturnStmt"):
             # breaks of nested loops do not leave the worker loop
@@ -991,14 +1200,22 @@ def r_drain(db, rep):
         atoms = expand_atoms(db, atoms)
         rep.inst(run.nloc(node), "Worker::run can leave its loop through %s" % what)
         knows_stopped = knows_empty = False
+        via_pred = any(x["k"] == "DeclRefExpr" and x.get("dk") == "local" and x.get("d") in pred_written
+                       for c, pol in atoms if c is not None for x in walk(c))
         for c, pol in atoms:
             if c is None:
                 continue
             sc = strip(c)
+            if sc["k"] == "CXXMemberCallExpr" and sc.get("frec") == "WorkerQueue" and _empty_implied(db, db.funcs.get(sc.get("f")), pol):
+                knows_empty = True
             if sc["k"] == "CXXMemberCallExpr" and callee_name(sc) == "stopped" and pol:
                 knows_stopped = True
             if sc["k"] == "CXXMemberCallExpr" and callee_name(sc) == "empty" and sc.get("frec") == "WorkerQueue" and pol:
                 knows_empty = True
+        if via_pred and not (knows_empty and knows_stopped):
+            rep.notes.append("Worker::run: %s is decided on a variable the wait predicate fills in: what it knows about the queue and the "
+                             "stop flag is not followed (undecided)" % what)
+            continue
         rep.ob()
         if not knows_empty:
             rep.viol("Worker::run#exit-with-queued-tasks:%s" % what.split(" at ")[0].replace(" ", "-"), run.nloc(node),
